@@ -101,6 +101,29 @@ func corpus(g *gen) {
 			reqSpec{lines: P("X-A", "1", "Content-Type", "text/plain"), query: P("a", "1", "", "empty-name", " ", "blank")},
 			reqSpec{lines: P("Cookie", "c")})
 	}
+	// several GET backends with DIFFERENT backend-level lists, sequential and parallel merge: every
+	// backend gets its own allowed headers / parameters whatever its siblings filtered before or meanwhile
+	for _, seq := range []bool{true, false} {
+		each(cfgSpec{sequential: seq, epH: L("X-A", "X-B"), epQ: L("a", "b"), bes: []beSpec{{h: L("X-A"), q: L("a")}, {h: L("X-B"), q: L("b")}}},
+			reqSpec{lines: P("X-A", "1", "X-B", "2"), query: P("a", "1", "b", "2")},
+			reqSpec{lines: P("X-B", "3"), query: P("b", "3")})
+		each(cfgSpec{sequential: seq, epH: L("*"), epQ: L("*"), bes: []beSpec{{h: L("X-A"), q: L("a")}, {}, {h: L("Cookie", "X-Forwarded-For"), q: L("y")}}},
+			reqSpec{lines: P("X-A", "1", "Cookie", "c=1", "User-Agent", "curl/8"), query: P("a", "1", "y", "2")},
+			reqSpec{lines: P("Cookie", "c=2")})
+		each(cfgSpec{sequential: seq, bes: []beSpec{{h: L("")}, {h: L("Content-Type")}, {}}},
+			reqSpec{lines: P("Content-Type", "text/plain", "X-A", "1"), query: P("a", "1")})
+	}
+	// names whose canonical form is not their title case: a segment starting with a digit, the token
+	// punctuation (textproto.CanonicalMIMEHeaderKey touches letters after '-' only)
+	odd := L("x-3scale-proxy-secret-token", "X-1st-value", "9-lives", "x+plus", "x~tilde-y", "x!bang", "x#h", "x$d", "x%p", "x&a", "x'q", "x^c", "x`b", "x|p", "x.y-z", "x_u-v", "a-*b")
+	var oddLines [][2]string
+	for i, n := range odd {
+		oddLines = append(oddLines, [2]string{n, fmt.Sprintf("v%d", i)})
+	}
+	each(cfgSpec{epH: L("*"), bes: []beSpec{{h: odd}, {}}}, reqSpec{lines: oddLines}, reqSpec{lines: oddLines[:3]})
+	each(cfgSpec{epH: odd, bes: []beSpec{{}, {h: L("X-3SCALE-PROXY-SECRET-TOKEN", "X+PLUS", "X~TILDE-Y", "9-LIVES")}}}, reqSpec{lines: oddLines})
+	each(cfgSpec{epH: L("X-3Scale-Proxy-Secret-Token", "X~Tilde-Y"), bes: []beSpec{{h: L("X-3Scale-Proxy-Secret-Token")}}},
+		reqSpec{lines: P("x-3scale-proxy-secret-token", "s3cr3t", "x~tilde-y", "t")})
 	// static query shares a key with a forwarded parameter; reserved characters; empty values
 	each(cfgSpec{epQ: L("a", "k&=", "e"), bes: []beSpec{{static: "a=0&s=x+y&a=%26"}}},
 		reqSpec{query: P("a", "1", "k&=", "v&=?#", "e", "", "e", "", "a", " 2")})
@@ -242,7 +265,8 @@ func exhaustive(g *gen) {
 // ---- structured random ------------------------------------------------------------------
 
 var headerPool = []string{"X-A", "X-B", "X-C", "Cookie", "Authorization", "Content-Type", "User-Agent", "Accept",
-	"X-Forwarded-For", "X-Forwarded-Host", "X-Forwarded-Via", "X-Real-Ip", "X-Custom-Id", "Etag", "X_Under", "x.dot", "X-A-B-c", "X-*", "*", "", " "}
+	"X-Forwarded-For", "X-Forwarded-Host", "X-Forwarded-Via", "X-Real-Ip", "X-Custom-Id", "Etag", "X_Under", "x.dot", "X-A-B-c", "X-*", "*", "", " ",
+	"x-3scale-proxy-secret-token", "X-1st-value", "9-lives", "x+plus", "x~tilde-y", "x!bang", "x#h", "x$d", "x%p", "x&a", "x'q", "x^c", "x`b", "x|p", "x_u-v"}
 var headerValues = []string{"v1", "v2", "a, b", "text/plain", "Mozilla/5.0 (X11)", "1.2.3.4", "", "k=v; x=y", "\xc3\xa9t\xc3\xa9", "*"}
 var queryKeys = []string{"a", "b", "c", "A", "id", "q", "x y", "k&=", "\xc3\xa4", "*", "", "a.b", "X-A", "a*", " ", ""}
 var queryValues = []string{"1", "2", "", "x y", "a&b=c", "%41", "\xc3\xbc", "+", "v", "#?/"}
@@ -376,13 +400,16 @@ func random(g *gen, r *rng.R) {
 		cs.epQ = randList(r, queryKeys, false, false)
 		nb := 1
 		if r.Chance(1, 4) {
-			nb = 2
+			nb = 2 + r.Intn(2)
 		}
 		for b := 0; b < nb; b++ {
 			cs.bes = append(cs.bes, beSpec{h: randList(r, headerPool, true, true), q: randList(r, queryKeys, false, true), static: statics[r.Intn(len(statics))]})
 		}
 		if nb == 1 && r.Chance(1, 7) {
 			cs.method = "POST"
+		}
+		if nb > 1 && r.Chance(1, 3) {
+			cs.sequential = true
 		}
 		if r.Chance(1, 10) {
 			cs.concurrent = 2 + r.Intn(2)
@@ -409,7 +436,7 @@ func canonCases(g *gen, r *rng.R) {
 		add(string([]byte{byte(c)}))
 		add("a" + string([]byte{byte(c)}) + "b")
 	}
-	alpha := []string{"a", "Z", "-", "_", " ", "1", ":", "\xc3\xa9", "*"}
+	alpha := []string{"a", "Z", "-", "_", " ", "1", ":", "\xc3\xa9", "*", "+", "~", "!"}
 	for _, x := range alpha {
 		for _, y := range alpha {
 			add(x + y)
@@ -419,8 +446,19 @@ func canonCases(g *gen, r *rng.R) {
 		}
 	}
 	for _, p := range headerPool {
+		add(p)
+		add(strings.ToUpper(p))
 		for k := 0; k < 4; k++ {
 			add(randCase(r, p))
+		}
+	}
+	// every token punctuation character and every digit at the start of a segment, inside one, and
+	// right after '-'
+	for _, c := range "!#$%&'*+.^_`|~0123456789" {
+		x := string(c)
+		for _, t := range []string{"%sab", "a%sb", "ab%s", "x-%sab", "x-a%sb-c", "X-%sAB-%scd", "%s-%s", "a-b%s-Cd"} {
+			add(strings.ReplaceAll(t, "%s", x))
+			add(strings.ToUpper(strings.ReplaceAll(t, "%s", x)))
 		}
 	}
 	n := 100
